@@ -49,10 +49,11 @@ type Case struct {
 	R    *rand.Rand
 	Dir  string // scratch dir on /dev/shm (removed after the case)
 
-	mu      sync.Mutex
-	res     *CaseResult
-	hasher  []byte
-	diskDir string
+	mu       sync.Mutex
+	res      *CaseResult
+	hasher   []byte
+	diskDir  string
+	diskRoot string
 }
 
 func (c *Case) Thorough() bool { return c.Tier == "thorough" }
@@ -155,6 +156,13 @@ func (c *Case) DiskDir() string {
 			panic(err)
 		}
 		c.diskDir = d
+		c.diskRoot = d
+		if c.Idx%3 == 1 {
+			hostile := filepath.Join(d, "d [a-c]*?{1,2}%d é")
+			if os.Mkdir(hostile, 0755) == nil {
+				c.diskDir = hostile
+			}
+		}
 	}
 	return c.diskDir
 }
@@ -217,7 +225,16 @@ func RunCase(p *Prop, seed int64, tier string, idx int) *CaseResult {
 		res.Inconclusive = "mkdtemp: " + err.Error()
 		return res
 	}
-	c := &Case{Prop: p.ID, Seed: seed, Idx: idx, Tier: tier, Dir: dir, res: res,
+	caseDir := dir
+	if idx%3 == 1 {
+		// every third case works below a directory whose name means something to pattern matchers, shells and printf:
+		// nothing in the library may depend on how its directories are called
+		hostile := filepath.Join(dir, "d [a-c]*?{1,2}%d é")
+		if os.Mkdir(hostile, 0755) == nil {
+			caseDir = hostile
+		}
+	}
+	c := &Case{Prop: p.ID, Seed: seed, Idx: idx, Tier: tier, Dir: caseDir, res: res,
 		R: rand.New(rand.NewSource(CaseSeed(p.ID, seed, idx)))}
 	func() {
 		defer func() {
@@ -229,8 +246,8 @@ func RunCase(p *Prop, seed int64, tier string, idx int) *CaseResult {
 		p.Run(c)
 	}()
 	_ = os.RemoveAll(dir)
-	if c.diskDir != "" {
-		_ = os.RemoveAll(c.diskDir)
+	if c.diskRoot != "" {
+		_ = os.RemoveAll(c.diskRoot)
 	}
 	if c.hasher != nil {
 		res.Hash = hex.EncodeToString(c.hasher[:8])
